@@ -8,7 +8,7 @@ from __future__ import annotations
 
 import numpy as np
 
-from ..core import guarded
+from ..core import INTERNAL_ERRORS, guarded
 from ..oracles import cr3bp as ref
 
 SECTIONS = {"q2": (0, (2, 3)), "p2": (1, (2, 3)), "q3": (2, (0, 1)), "p3": (3, (0, 1))}   # index in (q2,p2,q3,p3), plane indices
@@ -110,6 +110,10 @@ def check_cm(ctx, label, sysm, L, N, n_dirs, n_sec, redegree=False):
         p2 *= rng.uniform(0.02, 0.25) / np.linalg.norm(p2)
         try:
             syn = np.asarray(cm.to_synodic(p2, h0, sec), dtype=float)
+        except INTERNAL_ERRORS as exc:
+            ctx.check(False, "C:section conversion completes or declines with a domain error (no internal IndexError/KeyError/NameError/AttributeError)",
+                      {"cm": label, "N": N, "section": sec, "energy": h0, "point": p2, "error": f"{type(exc).__name__}: {exc}"[:300]})
+            continue
         except Exception as exc:
             ctx.count("C:section point not liftable at this energy (raised) — accepted")
             continue
